@@ -48,7 +48,7 @@ U = {
     # two continuations that leave a filtered wildcard with different first characters (the wildcard node itself has no route)
     '/i/{n:int}/p': (L('i/'), W('n', 'int'), L('/p')), '/i/{n:int}-v': (L('i/'), W('n', 'int'), L('-v')),
 }
-HOOKS = {'/a': (L('a'),), '/a/b': (L('a/b'),), '/q': (L('q'),), '/a/{x}': (L('a/'), W('x'))}
+HOOKS = {'/a': (L('a'),), '/a/b': (L('a/b'),), '/q': (L('q'),), '/a/{y}': (L('a/'), W('y'))}    # the hook names its wildcard differently from the routes
 NAMES = ['n1', 'n2', 'n3']
 PROBES = ['/a', '/a/b', '/a/b/c', '/ab', '/a/1', '/a/zz', '/a/1/c', '/a/zz/c', '/i/7/p', '/i/7-v', '/i/7', '/i/x/p', '/q/z', '/', '/q', '/a/', '/a/b/', '/a/c',
           '/a/b/d', '/abc', '/a/b/c/d', '/a//c', '/q/zz', '/a/1/d', '/b', '/a/-5', '/a/-5/c', '/q/z/', '/a/b/c/']
